@@ -252,6 +252,43 @@ fn run_cursor(file: Vec<u8>, ops: &[String], keys: &[Vec<u8>], vals: &[Vec<u8>],
     Ok(())
 }
 
+/// Bounded exhaustive search over operation histories (public API only): used to confirm that a violation the
+/// solver found from a symbolic cursor state is reachable from a fresh cursor. DFS, cloning the cursor per branch.
+fn search(c: &Cur, m: &Model, depth: usize, alphabet: &[String], keys: &[Vec<u8>], vals: &[Vec<u8>], sym: &[u8], trail: &mut Vec<String>,
+          deadline: std::time::Instant) -> Result<(), String> {
+    if depth == 0 || std::time::Instant::now() > deadline {
+        return Ok(());
+    }
+    for op in alphabet {
+        if (op == "next" || op == "prev") && !m.valid {
+            continue;
+        }
+        let mut c2 = c.clone();
+        let mut m2 = Model { pos: m.pos, valid: m.valid };
+        trail.push(op.clone());
+        let r = catch_unwind(AssertUnwindSafe(|| step(&mut c2, &mut m2, op, keys, vals, sym)));
+        match r {
+            Err(_) => return Err(format!("history {:?}: the real crate panicked", trail)),
+            Ok(Err(e)) => return Err(format!("history {:?}: {}", trail, e)),
+            Ok(Ok(Some((g, e)))) if g != e => {
+                return Err(format!("history {:?}: last op returned entry {:?}, the sorted content determines {:?}", trail, g, e));
+            }
+            Ok(Ok(_)) => {}
+        }
+        // current() must equal the last returned entry
+        if m2.valid {
+            if let Ok(cur) = idx_of(c2.current(), keys, vals) {
+                if cur != m2.pos && !(op == "reset") {
+                    return Err(format!("history {:?}: current() = {:?} but the last returned entry is {:?}", trail, cur, m2.pos));
+                }
+            }
+        }
+        search(&c2, &m2, depth - 1, alphabet, keys, vals, sym, trail, deadline)?;
+        trail.pop();
+    }
+    Ok(())
+}
+
 fn bound_of(kind: &str, bytes: &[u8]) -> Bound<Vec<u8>> {
     match kind {
         "U" => Bound::Unbounded,
@@ -327,6 +364,21 @@ fn main() {
     let res = catch_unwind(AssertUnwindSafe(|| -> Result<(), String> {
         match mode.as_str() {
             "cursor" => run_cursor(file, &ops, &keys, &vals, &sym),
+            "search" => {
+                let depth: usize = args.get(0).and_then(|a| a.parse().ok()).unwrap_or(6);
+                let c = Reader::new(Cursor::new(file)).map_err(|e| format!("open failed: {}", e))?.into_cursor().map_err(|e| format!("{}", e))?;
+                let mut alphabet: Vec<String> = vec!["first".into(), "last".into(), "next".into(), "prev".into(), "reset".into(),
+                                                     "ge:sym".into(), "le:sym".into(), "eq:sym".into()];
+                for j in 0..keys.len() {
+                    alphabet.push(format!("ge:{}", j));
+                    alphabet.push(format!("le:{}", j));
+                }
+                let deadline = std::time::Instant::now() + std::time::Duration::from_secs(100);
+                for d in 1..=depth {
+                    search(&c, &Model { pos: None, valid: true }, d, &alphabet, &keys, &vals, &sym, &mut Vec::new(), deadline)?;
+                }
+                Ok(())
+            }
             "range" | "revrange" => {
                 let lo = bound_of(&args[0], &sym);
                 let hi = bound_of(&args[1], &sym2);
